@@ -2,7 +2,7 @@
 """C05 — re-serialising an accepted input is a stable canonical form."""
 from harness import core, clsrun, clsops
 
-LEAN_MODULES = ['CpProps.C05', 'CpProps.C05Hello', 'CpProps.C05Ssl2']
+LEAN_MODULES = ['CpProps.C05', 'CpProps.C05Hello', 'CpProps.C05Ssl2', 'CpProps.C05Ext']
 RULE = ('objects of every modelled class are built with the library constructors by type-directed generators (all enum '
         'members, unknown/GREASE code points, empty and maximal vectors, optional parts absent/present, boundary integers), '
         'composed, and the encodings are used as they are, with trailing bytes, concatenated, truncated at many offsets, '
